@@ -209,6 +209,11 @@ impl<'a> R<'a> {
     }
 
     pub(crate) fn content_char(&mut self) -> char {
+        // documents of the line-end profile are full of line feeds (spelled LF / CR / CRLF, also
+        // inside CDATA sections that follow other character data)
+        if self.cfg.cdata_cr && self.rng.chance(1, 5) {
+            return '\n';
+        }
         let c = match self.rng.below(20) {
             0..=6 => *self.rng.pick(&['a', 'b', 'z', '0', 'Q', ';', '#', 'x', '=', '/']),
             7 | 8 => ' ',
